@@ -519,6 +519,16 @@ def other_cases():
     for first, second, how in itertools.product(('struct', 'class', 'namespace'), ('struct', 'class', 'namespace'),
                                                 ('append', 'iadd')):
         yield {'kind': 'sharing', 'first': first, 'second': second, 'how': how}
+    # SIZE: parameter lists of 3..13 parameters (cycling through the parameter kinds, two rotations)
+    for n in range(3, 14):
+        for shift in (0, 3):
+            params = [PARAM_KINDS[(i + shift) % len(PARAM_KINDS)] for i in range(n)]
+            for scope in (None, 'struct'):
+                for contents in ('', 'return;'):
+                    yield {'kind': 'function', 'ret': RET_TYPES[0], 'name': 'fn', 'params': params, 'prefix': 'MEMBER',
+                           'cav': 'const' if scope else '', 'override': False, 'init': '', 'contents': contents, 'scope': scope}
+            yield {'kind': 'constructor', 'explicit': True, 'params': params, 'init': '', 'mil': ['m_a(1)'],
+                   'contents': 'x();', 'scope': 'struct'}
     for n in range(0, 6):
         for pattern in itertools.product((True, False), repeat=n):
             for explicit in (False, True):
